@@ -9,7 +9,11 @@ func init() {
 	bindProp("C06", "H1")
 	bindProp("C07", "H1")
 	bindProp("C08", "H1")
-	bindProp("C09", "H1")
+	bindProp("C09", "H5", "H1")
+	bindProp("C10", "H5")
+	bindProp("C11", "H5")
+	bindProp("C12", "H5")
+	bindProp("C13", "H5")
 	bindProp("C02", "H2", "H2", "H1")
 	bindProp("C16", "H1")
 	bindProp("C19", "H1")
